@@ -385,3 +385,29 @@ PROPS["C08"] = dict(
     level_note="Empty and non-ASCII kid values are not enumerated (the statement is silent on whether an empty kid is a kid).",
     design_ref="DESIGN.md section 7, C08",
 )
+
+
+PROPS["C11"] = dict(
+    level="model_checking", leak_every=5, exhaustive=True,
+    stages=lambda tier, seed: [
+        mc("batches", "MC_C11", "MC_C11_%s.cfg" % tier, target_ops=7),
+        gen("random", G.c11_random(40 if tier == "quick" else 600, 40)),
+    ],
+    rule="On the specification (MC_C11): Dec(Enc(b)) = b, unpadded URL-safe output of the RFC length, rejection of "
+         "foreign bytes ahead of '=' and of lengths 1 mod 4, canonical decoding - for all byte strings of length 1..2 "
+         "and all 3-byte strings over a byte set (12 values quick / all 256 for lengths 1..2 and 34 for length 3 "
+         "thorough) and all texts of length 1..3(4) over a 24-character class alphabet and 1..5 over an 8-character "
+         "one. Against the implementation (CodecBatch; inputs regenerated and counted in TLC): encode of every byte "
+         "string of length 0, 1, 2, of every 3-byte block with first byte in {0, 77, 251, 255} (quick) / every first "
+         "byte = all 16.8 M blocks (thorough), 4-byte strings with 6 prefixes; decode of every text of length 0..4 "
+         "over the 24-character alphabet (alphabet edges, both alphabets, '=', foreign and high-bit bytes), lengths "
+         "5..8 over 8 characters, and length 4 over 40 characters (thorough). Plus seeded random strings up to 64 KiB "
+         "(valid, one foreign byte, length 1 mod 4, standard alphabet, padded) in exact-size heap buffers under ASan. "
+         "distinct = distinct batch descriptors / random cases.",
+    assumptions=ASSUME_COMMON + ["jwt_base64uri_encode/_decode are called directly (internal symbols of the static library)"],
+    level_text="The codec is transcribed into TLA+ (Base64.tla); TLC proves the inverse and rejection laws on the "
+               "transcription over the bounded domains and checks every recorded (input, output) pair of the real "
+               "functions against it, the enumerated domains being complete (counts checked in TLC).",
+    level_note="The full 2^32 space of 4-character groups is covered by class representatives (24/40-character alphabets), not enumerated; texts containing '=' are only required to be rejected when a foreign byte precedes the '=' or the length is 1 mod 4.",
+    design_ref="DESIGN.md section 7, C11",
+)
